@@ -38,7 +38,33 @@ def lengths_special(rng):
     return [rng.randrange(1, 12) for _ in range(m)]
 
 
+def gen_many_runs(rng, cid):
+    """17..64 short runs, 2-4 distinct keys, many ranks: the sample of the initial partition has more than
+    16 entries with equal keys (std::sort is only stable up to 16 elements), ties across many sequences"""
+    cmp = rng.choice(["lt", "lt", "gt", "half"])
+    m = rng.choice([17, 17, 18, 20, 24, 31, 32, 33, 40, 48, 64])
+    nv = rng.choice([2, 2, 3, 4])
+    vals = list(range(nv)) if cmp != "half" else list(range(2 * nv))
+    maxlen = rng.choice([1, 2, 3, 3, 6])
+    # mostly equal lengths, so that (almost) every run contributes a real sample to the initial partition
+    runs = [make_run(rng, cmp, maxlen if rng.random() < 0.7 else rng.randrange(1, maxlen + 1), vals) for _ in range(m)]
+    N = sum(len(r) for r in runs)
+    if N <= 40:
+        ranks = list(range(N + 1))
+    else:
+        ranks = sorted(set([0, 1, N - 1, N] + [rng.randrange(N + 1) for _ in range(24)]))
+    lines = [f"case m{cid}"]
+    tail = " ".join(csv(r) for r in runs)
+    for r in ranks:
+        lines.append(f"part {cmp} {r} {tail}")
+        if r < N and rng.random() < 0.25:
+            lines.append(f"sel {cmp} {r} {tail}")
+    return lines
+
+
 def gen_case(rng, cid, tier):
+    if rng.random() < 0.07:
+        return gen_many_runs(rng, cid)
     cmp = rng.choice(["lt", "lt", "lt", "gt", "half"])
     style = rng.random()
     if style < 0.45:
@@ -79,6 +105,7 @@ EXH_THOROUGH = [("lt", 3, 5, 3), ("gt", 3, 5, 3), ("half", 3, 4, 4), ("lt", 4, 3
 
 class C08(flow.Spec):
     pid = "C08"
+    source_files = ('tlx/algorithm/multisequence_partition.hpp', 'tlx/algorithm/multisequence_selection.hpp', 'tlx/math/round_to_power_of_two.hpp')
     harness = dict(name="c08", sources=["c08.cpp"])
     nontrivial_rule = ("a `part` operation is non-trivial when 0 < rank < N, there are >= 2 runs and an element "
                        "equivalent to the last left element of one run is the first right element of another run "
@@ -147,6 +174,8 @@ class C08(flow.Spec):
             for i, f in enumerate(fails[:20]):
                 cs.append([f"case exh{i}", f])
         n = 6000 if tier == "quick" else 40000
+        if tier != "quick" and ctx.tier == "quick":
+            n = 15000         # deeper validation requested by the flow (modelled sources changed) inside the quick tier
         for i in range(n):
             cs.append(gen_case(rng, f"{round_no}_{i}", tier))
         return cs
